@@ -8,7 +8,7 @@ from ..program import AnalysisError, Program, norm, walk_local
 from ..report import Check
 from ..types import Types
 from ..util import calls_in, fkey, is_method_call, node_calls, path_of, recv_of, stores_to_attr, where
-from .mgr import comprehension_facts, MGR, CORE, Dispatch, const_resolver, self_call
+from .mgr import iterates_loggers, comprehension_facts, MGR, CORE, Dispatch, const_resolver, self_call
 
 SUB_CTRL = ["MT_SUBSCRIBE", "MT_UNSUBSCRIBE", "MT_PAUSE_SUBSCRIPTION", "MT_RESUME_SUBSCRIPTION"]
 CONNECTS = ["MT_CONNECT", "MT_CONNECT_V2"]
@@ -267,7 +267,7 @@ def run(prog: Program, chk: Check):
         A.decide(not esc, fkey(sack, "direct-send-every-path"), where(sack), "direct send on every path", "a path returns without the direct send")
         lg = [n for n in ag.nodes for c in node_calls(n) if self_call("send_to_loggers")(c)]
         # ... or the fan-out written in place: a loop over (a snapshot of) self.logger_modules that sends to each logger
-        lg_loops = [n for n in ag.nodes if n.kind == "for" and "logger_modules" in norm(n.ast.iter)
+        lg_loops = [n for n in ag.nodes if n.kind == "for" and iterates_loggers(sack.node, n.ast)
                     and any(is_method_call(cc, "send_message") and path_of(recv_of(cc)) == path_of(n.ast.target) for cc in calls_in(n.ast))]
         okl = bool(lg or lg_loops) and not flow.must_follow(ag, [ag.entry], lg + lg_loops, exits=("exit",))
         A.decide(okl, fkey(sack, "logger-copy-every-path"), where(sack), "logger copy on every normal path, including after a failed direct send",
